@@ -77,7 +77,9 @@ class DctInterp:
         t = np.multiply.outer(x + 0.5, a)
         if d == 0:
             return np.cos(t)
-        return -np.sin(t) * a
+        if d == 1:
+            return -np.sin(t) * a
+        return -np.cos(t) * a * a
 
     def __call__(self, R, Z, dx=0, dy=0, grid=False):
         sh = np.shape(R)
